@@ -36,7 +36,7 @@ func (o *c04) Before(x *hctx, s hist.Step) {
 		o.expect = map[string]int64{}
 		o.offBlock = map[int64]int{}
 	}
-	if s.Op == "reopen" {
+	if s.Op == "reopen" || s.Op == "rebuild" {
 		// reopening closes (and thereby commits) every open handle
 		for p := range x.mr.OpenPaths() {
 			delete(o.expect, p)
@@ -252,7 +252,7 @@ func init() { historyOracles["C04"] = func() oracle { return &c04{} } }
 var c04Weights = map[string]int{
 	"create": 6, "openfile": 3, "write": 8, "writestring": 1, "sync": 1, "close": 8,
 	"mkdir": 5, "mkdirall": 3, "remove": 3, "removeall": 2, "rename": 6,
-	"chmod": 2, "chown": 1, "chtimes": 2, "reopen": 1,
+	"chmod": 2, "chown": 1, "chtimes": 2, "reopen": 1, "rebuild": 1,
 	"arch_archive": 5, "arch_update": 4, "arch_delete": 2, "arch_move": 3,
 }
 
